@@ -275,3 +275,53 @@ func genBurst(t *rapid.T) Case {
 	}
 	return c
 }
+
+// genPing: 2-3 WebSocket tuples that negotiate graphql-transport-ws (the only protocol with
+// client-initiated pings), some of which fall silent in the middle of the schedule.
+func genPing(t *rapid.T) Case {
+	// pingLoop checks "no pong since the last ping and that ping is older than PingTimeout" once per
+	// PingInterval, right before it sends the next ping. Detection therefore needs PingTimeout <
+	// PingInterval (the repo's own test uses 100ms/50ms), and a healthy connection has one whole interval
+	// to answer: the interval is the one-sided slack, so it is the generous number here.
+	c := Case{Ping: &Ping{IntervalMs: rapid.SampledFrom([]int{400, 500}).Draw(t, "p.interval"), TimeoutMs: 100}}
+	n := rapid.IntRange(2, 3).Draw(t, "p.ntuples")
+	seen := map[string]bool{}
+	for len(c.Tuples) < n {
+		tp := Tuple{Endpoint: rapid.IntRange(0, 1).Draw(t, "p.ep"), Header: rapid.IntRange(0, 2).Draw(t, "p.hdr"),
+			Init: rapid.IntRange(0, 2).Draw(t, "p.init"), Proto: rapid.SampledFrom([]int{0, 2}).Draw(t, "p.proto")}
+		if seen[tp.canonical()] {
+			continue
+		}
+		seen[tp.canonical()] = true
+		c.Tuples = append(c.Tuples, tp)
+	}
+	nSilent := rapid.IntRange(1, n-1).Draw(t, "p.nsilent")
+	for k := 0; k < nSilent; k++ {
+		c.Ping.Silent = append(c.Ping.Silent, k)
+	}
+	ns := rapid.IntRange(n, 6).Draw(t, "p.nsubs")
+	for i := 0; i < ns; i++ {
+		k := i % n
+		if i >= n {
+			k = rapid.IntRange(0, n-1).Draw(t, "p.tuple")
+		}
+		c.Subs = append(c.Subs, Sub{Tuple: k, Nexts: rapid.IntRange(1, 3).Draw(t, "p.nexts"), Term: rapid.SampledFrom([]string{"none", "none", "complete"}).Draw(t, "p.term")})
+	}
+	for i := range c.Subs {
+		c.Steps = append(c.Steps, Step{Op: "sub", Sub: i})
+	}
+	for i := range c.Subs {
+		if rapid.Bool().Draw(t, "p.pre") {
+			c.Steps = append(c.Steps, Step{Op: "send", Sub: i})
+		}
+	}
+	c.Steps = append(c.Steps, Step{Op: "silence"})
+	for round := 0; round < 2; round++ {
+		for i := range c.Subs {
+			if rapid.IntRange(0, 2).Draw(t, "p.post") > 0 {
+				c.Steps = append(c.Steps, Step{Op: "send", Sub: i})
+			}
+		}
+	}
+	return c
+}
